@@ -399,6 +399,17 @@ impl PeerDHTRecord {
 
     /// Verify the record signature
     pub fn verify_signature(&self) -> Result<()> {
+        // The user id is defined as the hash of the owner's public key; a record that
+        // names one identity but embeds another identity's key is not that owner's record.
+        if self.user_id != UserId::from_public_key(&self.public_key) {
+            return Err(P2PError::Security(
+                SecurityError::SignatureVerificationFailed(
+                    "User ID does not match the embedded public key"
+                        .to_string()
+                        .into(),
+                ),
+            ));
+        }
         let message = self.create_signable_message()?;
         let ok = crate::quantum_crypto::ml_dsa_verify(&self.public_key, &message, &self.signature)
             .map_err(|e| {
